@@ -120,6 +120,30 @@ static int all_filled(const cbor_item_t* it) {
   }
 }
 
+/* the copy must agree with the original in every observable that the tree text does not show: code point counts of text strings */
+static int meta_eq(const cbor_item_t* a, const cbor_item_t* b, int depth) {
+  if (!a || !b) return a == b;
+  if (depth > 4000 || a->type != b->type) return a->type == b->type;
+  switch (a->type) {
+    case CBOR_TYPE_STRING:
+      if (cbor_string_is_definite(a)) return cbor_string_is_definite(b) && cbor_string_codepoint_count(a) == cbor_string_codepoint_count(b) && cbor_string_length(a) == cbor_string_length(b);
+      if (cbor_string_is_definite(b) || cbor_string_chunk_count(a) != cbor_string_chunk_count(b)) return 0;
+      for (size_t i = 0; i < cbor_string_chunk_count(a); i++) if (!meta_eq(cbor_string_chunks_handle(a)[i], cbor_string_chunks_handle(b)[i], depth + 1)) return 0;
+      return 1;
+    case CBOR_TYPE_ARRAY:
+      if (cbor_array_size(a) != cbor_array_size(b)) return 0;
+      for (size_t i = 0; i < cbor_array_size(a); i++) if (!meta_eq(cbor_array_handle(a)[i], cbor_array_handle(b)[i], depth + 1)) return 0;
+      return 1;
+    case CBOR_TYPE_MAP:
+      if (cbor_map_size(a) != cbor_map_size(b)) return 0;
+      for (size_t i = 0; i < cbor_map_size(a); i++)
+        if (!meta_eq(cbor_map_handle(a)[i].key, cbor_map_handle(b)[i].key, depth + 1) || !meta_eq(cbor_map_handle(a)[i].value, cbor_map_handle(b)[i].value, depth + 1)) return 0;
+      return 1;
+    case CBOR_TYPE_TAG: return meta_eq(a->metadata.tag_metadata.tagged_item, b->metadata.tag_metadata.tagged_item, depth + 1);
+    default: return 1;
+  }
+}
+
 /* ---------------------------------------------------------------- parsing tree text -> items via the construction API */
 static const char* P; /* cursor */
 static int perr;
@@ -318,7 +342,7 @@ static void op_load(const char* hex, int mode, long k, size_t cap) {
   if (!cp) printf(" copy=null");
   else {
     struct sb s2 = {0}; int rc1b = 1; print_item(&s2, cp, &rc1b, 0);
-    printf(" copy=%s", (strcmp(s.p, s2.p) == 0 && rc1b) ? "ok" : "DIFF");
+    printf(" copy=%s", (strcmp(s.p, s2.p) == 0 && rc1b && meta_eq(item, cp, 0)) ? "ok" : "DIFF");
     free(s2.p); cbor_decref(&cp);
   }
   cbor_decref(&item);
@@ -363,7 +387,10 @@ static void op_ln(const char* hexprefix, int k) {
       if (dn) cbor_describe(item, dn);
 #endif
       cbor_item_t* cp = cbor_copy(item);
-      if (cp) cbor_decref(&cp);
+      if (cp) {
+        if (!meta_eq(item, cp, 0)) { printf("\nHARNESS-ABORT copy of the decoded tree differs from it (metadata) for input "); print_hex(tmp, n); printf("\n"); fflush(stdout); abort(); }
+        cbor_decref(&cp);
+      }
       cbor_decref(&item);
     }
     if (h_alloc_live() != live0) { printf("\nHARNESS-ABORT %ld block(s) left after input ", h_alloc_live() - live0); print_hex(tmp, n); printf("\n"); fflush(stdout); abort(); }
